@@ -39,6 +39,45 @@ pub open spec fn sum_post<const B: Word>(m: Mode, b: int, p: usize, is_sub: bool
     }
 }
 
+/// repr_round_sum, room for the exponent of its result (`Repr::new(significand + adjust, exponent)`): the high part q of
+/// N = S*b^k + L at the unit b^j, adjusted by -1/0/+1, has at most nd + k - j + 2 digits (nd = digits of S, |L| < b^k, j <= nd + k)
+pub proof fn lemma_sum_top(b: int, S: int, L: int, k: nat, j: nat, q: int, l: int, a: int)
+    requires b >= 2, iabs(L) < ipow(b, k), j <= ndigits(b, S) + k, -1 <= a <= 1,
+        unit_split(S * ipow(b, k) + L, ipow(b, j), q, l),
+    ensures ndigits(b, q + a) <= ndigits(b, S) + k - j + 2
+{
+    let nd = ndigits(b, S);
+    let m = (nd + k - j) as nat;
+    let (bk, U, h, t) = (ipow(b, k), ipow(b, j), ipow(b, nd), ipow(b, m));
+    lemma_ipow_pos(b, k); lemma_ipow_pos(b, j); lemma_ipow_pos(b, nd); lemma_ipow_pos(b, m);
+    lemma_ndigits_ub(b, S);
+    let N = S * bk + L;
+    // |N| < b^(nd + k) = t * U
+    let aS = iabs(S);
+    let Sbk = S * bk;
+    assert(iabs(Sbk) == aS * bk) by (nonlinear_arith) requires Sbk == S * bk, aS == (if S < 0 { -S } else { S }), bk >= 1;
+    let aSbk = aS * bk;
+    assert(aSbk + bk <= h * bk) by (nonlinear_arith) requires aSbk == aS * bk, aS + 1 <= h, bk >= 1;
+    lemma_ipow_add(b, nd, k);
+    lemma_ipow_add(b, m, j);
+    assert(m + j == nd + k);
+    let tU = t * U;
+    assert(iabs(N) < tU);
+    // |q| * U <= |N| + |l| < (t + 1) * U
+    let aq = iabs(q);
+    let qU = q * U;
+    assert(iabs(qU) == aq * U) by (nonlinear_arith) requires qU == q * U, aq == (if q < 0 { -q } else { q }), U >= 1;
+    let aqU = aq * U;
+    assert(aqU < tU + U);
+    assert(aq <= t) by (nonlinear_arith) requires aqU == aq * U, tU == t * U, aqU < tU + U, U >= 1;
+    // |q + a| <= t + 1 <= 2t <= b*t < b^(m+2)
+    assert(ipow(b, (m + 1) as nat) == b * t);
+    assert(ipow(b, (m + 2) as nat) == b * ipow(b, (m + 1) as nat));
+    let t1 = b * t;
+    assert(t1 >= 2 * t) by (nonlinear_arith) requires t1 == b * t, b >= 2, t >= 1;
+    assert(b * t1 > t1) by (nonlinear_arith) requires b >= 2, t1 >= 1;
+    lemma_ndigits_le(b, q + a, (m + 2) as nat);
+}
 /// cutting `shift` digits off the high part: they join the low part
 pub proof fn lemma_sum_shrink(b: int, S: int, L: int, k: nat, shift: nat, hi: int, lo: int)
     requires b >= 2, iabs(L) < ipow(b, k), is_trunc_divrem(S, ipow(b, shift), hi, lo)
@@ -187,9 +226,13 @@ pub proof fn lemma_split_hi_bound(b: int, v: int, n: nat, k: nat, hi: int, lo: i
 }
 
 /// machine ranges under which the helpers of add.rs are free of usize/isize overflow (digit counts, precision and
-/// exponents below 2^60; anything beyond is outside the contracts)
+/// exponents below 2^56; anything beyond is outside the contracts).
+/// resource limit: exponent overflow is a documented panic (C16), not modelled: the digit positions passed to
+/// split_digits(_ref) / shl_digits(_in_place) (exponent differences < 2^57, digit counts, precision + 2) must satisfy
+/// `pos_room` (bit position `pos * log2(B)` within usize, i.e. pos < 2^58), and the exponents handed to `Repr::new`
+/// `exp_room`; 2^56 leaves that margin (it was 2^60 while the stubs ignored these limits).
 pub open spec fn add_ranges(b: int, p: usize, Sl: int, El: int, Sr: int, Er: int) -> bool {
-    let lim = 0x1000_0000_0000_0000int;
+    let lim = 0x100_0000_0000_0000int;
     p < lim && ndigits(b, Sl) < lim && ndigits(b, Sr) < lim && -lim < El && El < lim && -lim < Er && Er < lim
 }
 /// C03 domain ("operands that fit the context precision"), for a limited precision
@@ -414,16 +457,19 @@ pub proof fn lemma_exact_sum_zero(b: int, S: int, E: int, sg: Sign)
 /// representation (s1, e1) `Repr::new` returns satisfies the range precondition of repr_round, and rounding it is a
 /// rounding of X * b^E
 pub proof fn lemma_new_then_round<const B: Word>(m: Mode, b: int, p: usize, X: int, E: int)
-    requires b >= 2, E + ndigits(b, X) <= isize::MAX, ndigits(b, X) <= isize::MAX
+    requires b >= 2, E + ndigits(b, X) <= isize::MAX, ndigits(b, X) <= isize::MAX, pos_room(ndigits(b, X) as int)
     ensures
+        exp_room(E, ndigits(b, X) as int),
         forall|s1: int, e1: int| #[trigger] same_value(b, s1, e1, X, E) && (s1 == 0 || s1 % b != 0) && (X == 0 ==> s1 == 0 && e1 == 0)
-            ==> !(s1 == 0 && e1 != 0) && e1 + ndigits(b, s1) <= isize::MAX && ndigits(b, s1) <= isize::MAX,
+            ==> !(s1 == 0 && e1 != 0) && e1 + ndigits(b, s1) <= isize::MAX && ndigits(b, s1) <= isize::MAX
+                && pos_room(ndigits(b, s1) as int),
         forall|s1: int, e1: int, rr: Rounded<Repr<B>>| #[trigger] same_value(b, s1, e1, X, E) && (s1 == 0 || s1 % b != 0)
             && #[trigger] round_once(m, b, p, s1, e1, rr) ==> round_val(m, b, p, X, E, rr) && sum_c03(m, b, p, X, E, rr),
 {
     broadcast use ax_ndigits;
     assert forall|s1: int, e1: int| #[trigger] same_value(b, s1, e1, X, E) && (s1 == 0 || s1 % b != 0) && (X == 0 ==> s1 == 0 && e1 == 0)
-        implies !(s1 == 0 && e1 != 0) && e1 + ndigits(b, s1) <= isize::MAX && ndigits(b, s1) <= isize::MAX by {
+        implies !(s1 == 0 && e1 != 0) && e1 + ndigits(b, s1) <= isize::MAX && ndigits(b, s1) <= isize::MAX
+            && pos_room(ndigits(b, s1) as int) by {
         assert(norm_of(b, X, E, s1, e1));
         lemma_norm_of(b, X, E, s1, e1);
     }
